@@ -16,5 +16,6 @@ func init() {
 			ruleALBump(c)
 			c.Note("not decided: that each operation produces the result it would produce alone (value-level); races inside the standard library, snappy, json")
 			ruleLKShared(c)
+			ruleALOwner(c)
 		})
 }
